@@ -362,5 +362,5 @@ def replay(ctx, path):
 
 MANIFEST = dict(
     technique='Coq proof (fuelled transliteration of is_equivalent/is_conformant/coerced; preorder, equivalence, variance and coercion laws for all types) with model/code correspondence',
-    text="Theorems (coq/Props/C16.v, closed under the global context) hold for every type of any depth and arity whose context keys are unique: equivalence is reflexive/symmetric/transitive and implies mutual conformance, conformance is reflexive/transitive with Any top and Null bottom, list/range/context/function variance, function results, coercion = identity/wrap/unwrap/null, conforms-or-null, idempotent. Tied to feel/src/types.rs by comparing both relations on the exhaustive depth-1 universe and sampled deeper types, and coerced/type_of on generated values; the laws are also evaluated on the implementation's own answers.",
+    text="Theorems (coq/Props/C16.v, closed under the global context) hold for every type of any depth and arity whose context keys are unique: equivalence is reflexive/symmetric/transitive and implies mutual conformance, conformance is reflexive/transitive with Any top and Null bottom, list/range/context/function variance, function results, coercion = identity/wrap/unwrap/null, conforms-or-null, idempotent. Fuel: the relations are transliterated with fuel and answer false when it runs out (C16_fuel_needed); once the fuel covers the two types (size a + size b for equivalence and type equality, one more for conformance) more fuel changes nothing and the value is that of the saturated functions the theorems are about (C16_equiv_fuel_adequate, C16_conf_fuel_adequate, C16_type_eq_fuel_adequate, C16_equiv_saturated, C16_conf_saturated). Conformance is also given as an inductive relation Conf without fuel whose rules are the sentences of the property; the implementation's relation decides it on types with unique context keys (C16_conformant_iff_Conf, C16_conf_decides_Conf), and reflexivity, transitivity (no hypothesis), Null bottom / Any top and the four variance sentences are restated for Conf (C16_Conf_*); equivalence has no inductive counterpart. Coercion as one equation: coerced T v = the first of v, [v], (x when v = [x]) whose type conforms to T, else null (C16_coerced_characterisation, decision procedure coerced_spec written with find, independently of the branches of coerced; the branch-shaped theorems C16_coerced_identity/_wrap/_unwrap remain as corollaries, C16_coerced_cases). Tied to feel/src/types.rs by comparing both relations on the exhaustive depth-1 universe and sampled deeper types, and coerced/type_of on generated values; the laws are also evaluated on the implementation's own answers.",
     note='Trusted: Coq kernel + vm_compute, hand-written model of types.rs / Value::type_of (correspondence-checked, not verified), harness. Atom payloads and names are abstract.')
